@@ -21,6 +21,7 @@ groups = {"renders": ["injectify_spec", "transpose_spec", "injectifyTranspose_sp
           "cmexact": ["cm_ordering_spec", "cm_reverse_exact"],
           "color2": ["coloringOrdered_bounds", "coloringOrdered_proper_scanned", "coloringOrdered_colors_contiguous",
                      "partition_transpose_roundtrip"],
+          "mask": ["walkM_spec", "walk_is_walkM", "walkTag_narrow_fails", "walkTag_wide_ok"],
           "blk": ["blocked_apply_spec", "indexSetPermute_is_graph_permuted"],
           "perms2": ["inverse_inverse", "concat_inverse", "self_concat", "self_concat_aliased", "random_ctor_bijection", "graph_permuted_spec"]}
 # lemma whose name differs from the property theorem (old signature kept for other properties' imports)
@@ -48,6 +49,11 @@ HYP_NOTES = """Remaining hypotheses of the C19 theorems and why they stay (every
   (`dyn_insert_spec`, `dyn_erase_spec`, `dyn_ofAdjactor*_spec`, `dyn_compose_spec`).
 * index-range hypotheses (`i < g.nImg`, `i < g.nDom`, `hj : j < col.length`, `h : c ∈ col → c < nc`): the quantifier
   range of the statement (rows that exist / colours that are below `num_colors`).
+* MODELLING ASSUMPTION: `Index` and the element type of the duplicate mask (`std::vector<char>`) are modelled unbounded
+  (Nat / Bool). The kernels are proved for every mask element type with two distinct values (`walkM_spec`,
+  `walk_is_walkM`); `walkTag_narrow_fails` shows what a `w`-bit tag compared against a full-width index does from node
+  `2^w - 1` on. C++ narrowing is invisible to the model, so the correspondence stream `large` crosses the
+  2^7 / 2^8 (quick) and 2^15 / 2^16 (thorough) node-count boundaries with duplicates in the last rows.
 * `compositeIterator_spec` / `_empty_head` describe the pre-1c006df21 begin constructor; the current one is
   `compositeIterator_fixed_spec` (no hypothesis).
 Per theorem (hypothesis binders as written below):"""
